@@ -30,6 +30,10 @@ pub(crate) mod expert;
 pub(crate) struct State {
     pub(crate) stabilisation_num: Cell<StabilisationNum>,
     pub(crate) adjust_heights_heap: RefCell<AdjustHeightsHeap>,
+    /// (lhs-change node of a bind that became necessary again, node created on its rhs that had
+    /// stayed necessary): the rhs node has to be raised above the lhs-change node, once the nodes
+    /// that are being linked right now have their own heights. See [Node::became_necessary].
+    pub(crate) rhs_nodes_to_raise: RefCell<Vec<(WeakNode, WeakNode)>>,
     pub(crate) recompute_heap: RecomputeHeap,
     pub(crate) status: Cell<IncrStatus>,
     pub(crate) num_var_sets: Cell<usize>,
@@ -113,6 +117,27 @@ impl State {
         self.current_scope.borrow().clone()
     }
 
+    /// Restores "a node is higher than the bind that created it" for the pairs noted down by
+    /// [Node::became_necessary]. Only called when no node is half-way through becoming necessary.
+    pub(crate) fn raise_rhs_nodes_of_reconnected_binds(&self) {
+        loop {
+            let Some((lhs_change, rnode)) = self.rhs_nodes_to_raise.borrow_mut().pop() else {
+                break;
+            };
+            let (Some(lhs_change), Some(rnode)) = (lhs_change.upgrade(), rnode.upgrade()) else {
+                continue;
+            };
+            if lhs_change.is_necessary()
+                && rnode.is_necessary()
+                && rnode.is_valid()
+                && rnode.height() <= lhs_change.height()
+            {
+                let mut ah_heap = self.adjust_heights_heap.borrow_mut();
+                ah_heap.adjust_heights(&self.recompute_heap, lhs_change, rnode);
+            }
+        }
+    }
+
     pub(crate) fn within_scope<R>(&self, scope: Scope, f: impl FnOnce() -> R) -> R {
         if !scope.is_valid() {
             panic!("Attempted to run a closure within an invalid scope");
@@ -132,6 +157,7 @@ impl State {
             weak_self: weak.clone(),
             recompute_heap: RecomputeHeap::new(max_height),
             adjust_heights_heap: RefCell::new(AdjustHeightsHeap::new(max_height)),
+            rhs_nodes_to_raise: RefCell::new(vec![]),
             stabilisation_num: Cell::new(StabilisationNum(0)),
             num_var_sets: Cell::new(0),
             num_nodes_recomputed: Cell::new(0),
